@@ -16,6 +16,7 @@ mod c08;
 mod c10;
 mod c11;
 mod c12;
+#[cfg(feature = "with-serde")]
 mod c14;
 mod c15;
 mod c17;
@@ -31,7 +32,11 @@ pub struct Family {
 }
 
 fn families() -> Vec<Family> {
-    vec![c20::family(), c15::family(), c07::family(), c05::family(), c06::family(), c08::family(), c10::family(), c11::family(), c12::family(), c03::family(), c19::family(), c14::family(), c14::family18(), c17::family()]
+    #[allow(unused_mut)]
+    let mut v = vec![c20::family(), c15::family(), c07::family(), c05::family(), c06::family(), c08::family(), c10::family(), c11::family(), c12::family(), c03::family(), c19::family(), c17::family()];
+    #[cfg(feature = "with-serde")]
+    { v.push(c14::family()); v.push(c14::family18()); }
+    v
 }
 
 pub fn hex(b: &[u8]) -> String {
